@@ -395,7 +395,7 @@ func buildResponse(reg Registry, rec *Recorder, op OpInfo, cc *caseCtx) reflect.
 		code = 299
 	}
 	switch {
-	case len(cc.script.Fill) > 0:
+	case len(cc.script.Fill) > 0 && string(cc.script.Fill) != "null":
 		var av AVal
 		if err := json.Unmarshal(cc.script.Fill, &av); err != nil {
 			panic("driver: bad fill: " + err.Error())
